@@ -431,7 +431,7 @@ def program_space(seed: int, n_random: int, shard: int, nshards: int, *, multili
             # the fixed corpus and the exhaustive small programs (and their re-layouts) do not depend on the seed
             rng = item_rng(seed if tag == "random" else 0, "relayout", i)
             for kind, s2 in ssb.relayouts(sym, rng):
-                yield f"relayout:{kind}", ssb.layout(s2, SCHEMES[(i + 1) % 4])
+                yield f"relayout:{kind}:{tag}", ssb.layout(s2, SCHEMES[(i + 1) % 4])
 
     i = 0
     for k, p in enumerate(ssb.FIXED_PROGRAMS):
@@ -472,6 +472,21 @@ def random_space(seed: int, n: int, shard: int, nshards: int, *, repair: bool, m
         kinds: Any = ("generic", "coro", k % 5)[k % 3]
         sym = ssb.sym_from_classes(cl, salt=k % 89, kinds=kinds, multiline=multiline)
         yield "random", ssb.layout(sym, SCHEMES[k % 4])
+
+
+SEEDED_SUFFIX = ":seeded-input"
+
+
+def is_seeded(tag: str) -> bool:
+    """True for inputs of the families that depend on VERIF_SEED (random op lists, random programs and their re-layouts); the
+    enumerated families, the hand-made shapes, the fixed and the exhaustive small programs and their re-layouts do not."""
+    return tag == "random" or tag.endswith(":random")
+
+
+def seeded_suffix(tag: str) -> str:
+    """Violations found only through a seed-dependent input get their own signature (suffix), so that a known finding can list the
+    members of the exhaustive families without depending on the seed."""
+    return SEEDED_SUFFIX if is_seeded(tag) else ""
 
 
 def well_formed_only(items: Iterator[tuple[str, dict]], counter: dict) -> Iterator[tuple[str, dict]]:
